@@ -279,7 +279,14 @@ func gpProc(toks []string) string {
 			}
 		}
 	}
+	// (the capacity of the configured argument slice is not an input of any property: half of the
+	// cases hand over a slice that is exactly full, like a literal; the others one with room to spare)
 	args := unhexList(cvField(toks, "A"))
+	if caseHash(strings.Join(toks, " "))&1 == 0 {
+		args = args[:len(args):len(args)]
+	} else {
+		args = append(make([]string, 0, len(args)+4), args...)
+	}
 	cfg := gopro.Config{
 		LogLevel: "debug", SourceDir: src, Binary: "ffmpeg", Args: args,
 		SkipNames: unhexList(cvField(toks, "K")), OutputTemplate: tmpl.String(),
